@@ -1957,17 +1957,111 @@ def has_union(c: Case) -> bool:
     return mentions(c.top, "union") or any(mentions(ft, "union") for k in c.sch.classes for _, ft in k["fields"])
 
 
+def kernel_format_table():
+    """{format: (sorted Coq origins of no_copy_collections | None, sorted pass-through leaf names)} parsed from coq/gen/K118d.v"""
+    import os
+    import re
+    try:
+        txt = open(os.path.join(vlib.COQ, "gen", "K118d.v")).read()
+    except OSError:
+        return None
+    leafname = {"LDate": "date", "LDecimal": "decimal", "LBytearray": "bytearray"}
+    out = {}
+    for f in ("orjson", "msgpack", "toml"):
+        m = re.search(r"Definition fmt_nocopy_%s : dialect := (None|Some \[([^\]]*)\])\." % f, txt)
+        l = re.search(r"Definition fmt_leafpass_%s \(k: leafk\) : bool := (.*)\." % f, txt)
+        if not m or not l:
+            return None
+        nc = None if m.group(1) == "None" else sorted(x.strip() for x in m.group(2).split(";") if x.strip())
+        body = l.group(1)
+        lp = sorted(leafname.values()) if body == "true" else sorted(leafname[x] for x in re.findall(r"L[A-Za-z]+", body))
+        out[f] = (nc, lp)
+    return out
+
+
+def theorems_retry(ctx, target_vo: str, names, kernels=None):
+    """ctx.theorems, except that a build which died WITHOUT a Coq error (coqc killed by the OOM killer, make timed out on
+    a loaded machine) is repeated: only a file Coq rejected, a failed kernel translation, or three such deaths in a row fail
+    the obligations"""
+    import time
+    v = target_vo[:-1] if target_vo.endswith(".vo") else target_vo
+    br = None
+    for attempt in range(3):
+        br = ctx.build([target_vo], force=[v], timeout=1800)
+        if br.ok or br.failed_file is not None:
+            break
+        ctx.hist("infrastructure", f"build of {target_vo} died without a Coq error - repeated")
+        time.sleep(20 * (attempt + 1))
+    kr = ctx.kernel_report
+    kfail = [k for k in (kernels or []) if k in kr and not kr[k]["ok"]]
+    for n in names:
+        if br.ok and not kfail:
+            ctx.obligation(n, True, "accepted by coqc")
+        else:
+            why = br.error or ""
+            if kfail:
+                why = "translator failed closed for " + ",".join(f"{k}: {kr[k]['error']}" for k in kfail) + " | " + why
+            ctx.obligation(n, False, why)
+    if not br.ok or kfail:
+        ctx.not_shown(f"theorems of {target_vo}", (br.error or "") + (" kernels: " + str(kfail) if kfail else ""))
+    return br
+
+
+def bad_idx_retry(ctx, name, imports, gen_imports, defs, cases, ok_fun, case_type, shard=150, needs=None, jobs=4, tries=6):
+    """Evaluate `bad_idx ok_fun cases` in shards like vlib.coq_bad_idx, but with at most [jobs] coqc at a time (a dozen
+    parallel evaluations of 150 cases take ~10 GB) and robust against a loaded machine: a shard whose coqc died WITHOUT a Coq
+    error (killed by the OOM killer / timed out: empty or truncated output) is evaluated again, alone, up to [tries] times.
+    Returns (bad indices, log) or (None, log) when Coq rejected a file or a shard kept dying."""
+    import time
+    br = vlib.coq_make(["theories/Wire.vo", "theories/PyK.vo"] + (needs or []), timeout=1800)
+    for attempt in range(2):
+        if br.ok or br.failed_file is not None:
+            break
+        time.sleep(30)
+        br = vlib.coq_make(["theories/Wire.vo", "theories/PyK.vo"] + (needs or []), timeout=1800)
+    if not br.ok:
+        return None, "Error: model does not build: " + (br.error or "")
+    files = []
+    for si in range(0, max(len(cases), 1), shard):
+        chunk = cases[si:si + shard]
+        txt = vlib.CASE_HEADER.format(imports=imports, gen_imports=gen_imports) + defs + "\n"
+        txt += f"Definition cases : list ({case_type}) :=\n  [" + ";\n   ".join(chunk) + "].\n"
+        txt += f"Eval vm_compute in (bad_idx ({ok_fun}) cases).\n"
+        files.append((f"{name}_{si // shard}", txt))
+    res = vlib.coq_eval_many(files, timeout=900, jobs=jobs)
+    bad = []
+    for n, (ok, out) in enumerate(res):
+        attempt = 0
+        while not ok and "Error:" not in out and attempt < tries:
+            attempt += 1
+            if ctx is not None:
+                ctx.hist("infrastructure", "case evaluation died without a Coq error - repeated")
+            time.sleep(10 * attempt)
+            ok, out = vlib.coq_eval(files[n][0], files[n][1], timeout=900)
+        if not ok:
+            return None, out[-3000:]
+        idx = vlib.parse_nat_list(out)
+        if idx is None:
+            return None, "unparsable coq output: " + out[-1500:]
+        bad.extend(n * shard + k for k in idx)
+    return bad, ""
+
+
+RUN_TAG = [""]     # case files of this run: unique per process, so that two runs in one worktree never share a file
+
+
 def coq_flag(name, terms, fun):
     """indices of the cases on which the boolean Coq function `fun : pcase -> bool` is true (None: Coq failed)"""
     if not terms:
         return []
-    idx, log = vlib.coq_bad_idx(name, "Share ShareWire", "", "", terms, f"fun c => negb ({fun} c)", "pcase", shard=150,
+    name = name + RUN_TAG[0]
+    idx, log = bad_idx_retry(None, name, "Share ShareWire", "", "", terms, f"fun c => negb ({fun} c)", "pcase", shard=150,
                                 needs=["theories/ShareWire.vo"])
     return idx
 
 
 def correspondence(ctx, cases, side):
-    name = f"c18_{side}"
+    name = f"c18_{side}{RUN_TAG[0]}"
     terms, idx = [], []
     for i, c in enumerate(cases):
         t = c.coq if hasattr(c, "coq") else coq_case(c)
@@ -1975,7 +2069,7 @@ def correspondence(ctx, cases, side):
             terms.append(t)
             idx.append(i)
     okf = "ok_pack" if side == "pack" else "ok_unpack"
-    bad, log = vlib.coq_bad_idx(name, "Share ShareWire", "", "", terms, okf, "pcase", shard=150,
+    bad, log = bad_idx_retry(ctx, name, "Share ShareWire", "", "", terms, okf, "pcase", shard=150,
                                 needs=["theories/ShareWire.vo"])
     cname = f"sharing-model-vs-library ({side})"
     if bad is None:
@@ -2013,10 +2107,26 @@ def shape_key(c: Case):
 
 
 def run(ctx: vlib.Ctx):
+    import glob
+    import os
+    RUN_TAG[0] = f"_s{ctx.seed}_p{os.getpid()}"
+    try:
+        run0(ctx)
+    finally:
+        for f in glob.glob(os.path.join(vlib.COQ, "cases", f"*c18_*{RUN_TAG[0]}_*")) + \
+                glob.glob(os.path.join(vlib.COQ, "cases", f".*c18_*{RUN_TAG[0]}_*")):
+            try:
+                os.remove(f)
+            except OSError:
+                pass
+
+
+def run0(ctx: vlib.Ctx):
     ctx.coverage["rule"] = (
         "a case = generated schema (1-4 dataclasses incl. format mixins, per-class Config.dialect / ADD_DIALECT_SUPPORT, "
         "types over atoms, date/Decimal, Any, pass_through, Optional, 8 sequence origins, tuples, named tuples, 6 mapping "
-        "origins, nested dataclasses; oracle-only: TypedDict, ChainMap, Literal, unions, bytearray) x no_copy sets x entry "
+        "origins, nested dataclasses, TypedDict, ChainMap, Literal, unions, wrappers; oracle-only: bytearray, unions the "
+        "encode-side union model does not take) x no_copy sets x entry "
         "point (to_dict, to_dict(dialect=), to_jsonb/to_msgpack/to_toml with identity encoder, Basic/MessagePack codecs with "
         "default_dialect; from_* likewise) x generated conforming value; distinct = distinct (schema, entry, value)")
     ctx.trusted.append("Share.v run_pack/run_unpack: label model of CPython object identity (a comprehension, .copy(), "
@@ -2029,18 +2139,54 @@ def run(ctx: vlib.Ctx):
                            "generated inputs; in the Coq model it holds by construction (pure functions)")
     # (T) the copy / by-reference / comprehension decision of the model is the function translated from
     # pack.py:pack_collection on this run (kernel K15)
-    ctx.theorems("props/C18_kernel.vo", ["C18_seq_decision_is_source", "C18_map_decision_is_source"], kernels=["K15"])
-    br = ctx.theorems("props/C18_share.vo", THEOREMS)
+    theorems_retry(ctx, "props/C18_kernel.vo", ["C18_seq_decision_is_source", "C18_map_decision_is_source"], kernels=["K15"])
+    # (T) decode side: the container the model's unpackers build per origin is the template the if/elif chain of
+    # unpack.py:unpack_collection selects (kernel K118a, translated on this run); no branch of that chain, of
+    # unpack_tuple, unpack_named_tuple or unpack_typed_dict returns its input or a shallow copy of it
+    ctx.trusted.append("K118a / K118b origin_facts: issubclass / `is` of each modelled origin class against the classes named in "
+                       "unpack_collection, evaluated by CPython when the kernel is generated")
+    theorems_retry(ctx, "props/C18_unpack_kernel.vo", UNPACK_KERNEL_THEOREMS, kernels=["K118a"])
+    # (T) encode side: which origins are submitted to K15's rule, which are always rebuilt (ChainMap, tuples, named
+    # tuples, TypedDict) is the if/elif chain of pack.py:pack_collection (kernel K118b); K118b + K15 = Share.cp
+    theorems_retry(ctx, "props/C18_pack_kernel.vo", PACK_KERNEL_THEOREMS, kernels=["K15", "K118b"])
+    # (T) the effective no_copy_collections (Share.effN: call dialect > Config.dialect > default dialect > ()) is
+    # CodeBuilder.get_dialect_or_config_option (K3) as called at every site that fills ValueSpec.no_copy_collections;
+    # the sites that fill / read it (K118c): packer roots fill, pack_collection's rule reads, nothing on the decode side
+    theorems_retry(ctx, "props/C18_nocopy_threading.vo", ["C18_effective_nocopy_is_source", "C18_nocopy_sites", "C18_item_specs_inherit"], kernels=["K3", "K118c"])
+    # (T) the default dialects of the format mixins as read from the source (K118d) are what the README promises;
+    # the values the correspondence cases carry (read from the imported library) must be the kernel's
+    theorems_retry(ctx, "props/C18_format_dialects.vo", ["C18_format_dialects_as_documented", "C18_format_default_decisions"],
+                 kernels=["K118d"])
+    # (T) the call dialect reaches a nested class exactly when the nested call names `dialect=dialect`
+    # (CodeBuilder.get_pack_method_flags, C08's kernel K8): Share.cp's ICall flag
+    theorems_retry(ctx, "props/C18_forwarding.vo", ["C18_dialect_forwarding_is_source"], kernels=["K8"])
+    # (T) Optional / bound TypeVar / NewType / Final / Required / Literal / Any cases of Share.cp are the shapes pack.py emits
+    # (K118e); an Optional item is always guarded (could_be_none=True in every item spec): never the bare name
+    theorems_retry(ctx, "props/C18_wrappers.vo", ["C18_pack_wrappers_are_source", "C18_optional_item_rebuilt",
+                                                  "C18_item_code_bare_name"], kernels=["K118e"])
+    kd = kernel_format_table()
+    live = {f: fmt_settings(f) for f in ("orjson", "msgpack", "toml")}
+    live = {f: (sorted(ALL_ORIGINS[n][1] for n in (nc or [])) if nc is not None else None, sorted(lp)) for f, (nc, lp) in live.items()}
+    ctx.obligation("format dialects: imported library == kernel K118d", kd == live, json.dumps({"kernel": kd, "library": live})[:600])
+    if kd != live:
+        ctx.not_shown("format dialects read from the library differ from kernel K118d", json.dumps({"kernel": kd, "library": live})[:600])
+    br = theorems_retry(ctx, "props/C18_share.vo", THEOREMS)
     if not ctx.quick() and br.ok:
         # second opinion: the independent checker re-validates the compiled library and reports every axiom
-        rc, out, secs = vlib.run(["timeout", "900", "coqchk", "-silent", "-o", "-Q", "theories", "Verif", "-Q", "props",
-                                  "VerifProps", "VerifProps.C18_share"], cwd=vlib.COQ, timeout=930)
+        mods = ["VerifProps.C18_share", "VerifProps.C18_kernel", "VerifProps.C18_unpack_kernel", "VerifProps.C18_pack_kernel",
+                "VerifProps.C18_nocopy_threading", "VerifProps.C18_format_dialects", "VerifProps.C18_forwarding",
+                "VerifProps.C18_wrappers"]
+        for attempt in range(3):
+            rc, out, secs = vlib.run(["timeout", "1500", "coqchk", "-silent", "-o", "-Q", "theories", "Verif", "-Q", "gen",
+                                      "VerifGen", "-Q", "props", "VerifProps"] + mods, cwd=vlib.COQ, timeout=1530)
+            if rc == 0 or "rror" in out:        # a checker that died without saying why (OOM kill) is run again
+                break
         import re as _re
         m = _re.search(r"\* Axioms:\s*(.*?)\n\s*\n", out, _re.S)
         axioms = " ".join(m.group(1).split()) if m else "?"
         ok = rc == 0 and axioms == "<none>"
-        ctx.obligation("coqchk -o VerifProps.C18_share", ok, f"rc={rc} Axioms: {axioms} ({secs:.0f}s)")
-        ctx.trusted.append(f"coqchk -o on props/C18_share.vo and its cone: Axioms: {axioms}")
+        ctx.obligation("coqchk -o VerifProps.C18_*", ok, f"rc={rc} Axioms: {axioms} ({secs:.0f}s) modules: {' '.join(mods)}")
+        ctx.trusted.append(f"coqchk -o on the eight props/C18_*.vo and their cone (incl. the generated kernels): Axioms: {axioms}")
         if not ok:
             ctx.not_shown("coqchk", out[-1500:])
 
@@ -2126,6 +2272,12 @@ def run(ctx: vlib.Ctx):
             drop_module(c.mod)
 
 
+PACK_KERNEL_THEOREMS = ["C18_pack_source_byref_only_by_rule", "C18_pack_structs_rebuild", "C18_pack_seq_is_source",
+                        "C18_pack_map_is_source", "C18_pack_chainmap_is_source", "C18_pack_tuple_is_source",
+                        "C18_pack_compiler_is_source", "C18_share_source"]
+UNPACK_KERNEL_THEOREMS = ["C18_unpack_source_rebuilds", "C18_unpack_structs_rebuild", "C18_unpack_seq_is_source",
+                          "C18_unpack_map_is_source", "C18_unpack_tuple_is_source", "C18_unpack_compiler_is_source",
+                          "C18_decode_fresh_source"]
 THEOREMS = ["C18_fresh_distinct", "C18_decode_fresh_distinct", "C18_labels_arg_or_supply", "C18_two_calls_disjoint", "C18_decode_two_calls_disjoint", "C18_wrapper_transparent", "C18_share", "C18_share_unionfree", "C18_share_union_refuted",
             "C18_decode_dialect_independent", "C18_decode_fresh", "C18_default_fresh", "C18_decode_all_fresh", "C18_decode_union_fresh", "C18_no_mutation",
             "C18_decode_no_mutation", "C18_share_partial", "C18_share_full_refuted"]
